@@ -155,6 +155,11 @@ func (w *World) visitInstr(fr *frame, instr ssa.Instruction) continuation {
 		fr.env[instr] = w.binop(fr, instr.Pos(), instr.Op, instr.X.Type(), instr.Y.Type(), fr.get(instr.X), fr.get(instr.Y))
 
 	case *ssa.Call:
+		if w.inInit > 0 && fr.caller == nil && w.skipTestInitCall(fr, instr) {
+			// initialisers of the package's own (non-harness) test files are not run: harnesses build their own state
+			fr.env[instr] = zeroOrNil(instr.Type())
+			break
+		}
 		fn, args := w.prepareCall(fr, &instr.Call)
 		fr.env[instr] = w.call(fr, instr.Pos(), fn, args)
 
@@ -400,6 +405,9 @@ func (w *World) callSSA(caller *frame, callpos token.Pos, fn *ssa.Function, args
 				fn.Pkg.Build()
 			}
 			if fn.Blocks == nil {
+				if w.inInit > 0 && fn.Signature.Results().Len() == 0 {
+					return nil // bodiless runtime hook without results, called from a package initialiser
+				}
 				panic(engineError{"no code for function: " + name + " (needs an intrinsic)"})
 			}
 		}
